@@ -66,9 +66,25 @@ func (w *MIDIWriter) getTickDeltaAndClear() uint32 {
 	return x
 }
 
-func (w *MIDIWriter) addTickDelta(t uint32) { w.tickDelta += t }
+func (w *MIDIWriter) addTickDelta(t uint32) { w.tickDelta = addTicks(w.tickDelta, t) }
 func (w MIDIWriter) newTicks(multiplier float64) uint32 {
-	return uint32(math.Round(float64(w.quoaterNoteTicks) * multiplier))
+	t := math.Round(float64(w.quoaterNoteTicks) * multiplier)
+	if t > math.MaxUint32 {
+		return math.MaxUint32 // saturate: refused by WriteTo
+	}
+	return uint32(t)
+}
+
+// maxTickDelta is the longest delay between two events that a MIDI file can state
+// (a variable-length quantity of four bytes).
+const maxTickDelta = 0x0FFFFFFF
+
+// addTicks adds without wrapping around, so that a delay that is too long stays too long.
+func addTicks(a, b uint32) uint32 {
+	if s := uint64(a) + uint64(b); s <= math.MaxUint32 {
+		return uint32(s)
+	}
+	return math.MaxUint32
 }
 
 func (w *MIDIWriter) add(op *TrackOp) {
@@ -103,6 +119,11 @@ func (w MIDIWriter) WriteTo(out io.Writer) (int64, error) {
 	for i := range w.set.Set().Len() {
 		var t smf.Track
 		w.set.Set().Get(i).Apply(&t)
+		for _, ev := range t {
+			if ev.Delta > maxTickDelta {
+				return 0, errorx.Invalid("a delay of %d ticks or more cannot be written to a MIDI file (at most %d)", ev.Delta, maxTickDelta)
+			}
+		}
 		if err := s.Add(t); err != nil {
 			return 0, err
 		}
